@@ -136,3 +136,37 @@ Definition sreach (c : pcfg) (throwers : list bool) (s : sst) : Prop := exists p
 
 Definition alive (l : list pst) : nat := length (filter (fun p => negb (wdone p)) l).
 Definition fixedcfg : pcfg := {| sub_first := true; once_close := true; add_on_throw := true |}.
+
+(** * Waking a catch event over a message flow.  The catch event announces that it listens; the set's watcher reads the
+    announcement some time later.
+      via_table = false : a throw hands the target's events to the process that contains it; the catch event itself
+                          says whether it listens (the sources since /repo 656cb12: Gen/Facts.v src_wake_is_direct);
+      via_table = true  : the watcher enters the catch event into a table when it reads the announcement, a throw
+                          looks the target up there (the pinned code). *)
+Inductive wlabel := WListen | WRegister | WThrow.
+Record wst := { wlistening : bool; wannounced : bool; wregistered : bool; wwoken : nat }.
+Definition wstep (via_table : bool) (s : wst) (l : wlabel) : wst :=
+  match l with
+  | WListen => {| wlistening := true; wannounced := true; wregistered := wregistered s; wwoken := wwoken s |}
+  | WRegister => if wannounced s
+                 then {| wlistening := wlistening s; wannounced := false; wregistered := true; wwoken := wwoken s |}
+                 else s
+  | WThrow =>
+      if via_table
+      then (if wregistered s
+            then {| wlistening := false; wannounced := wannounced s; wregistered := false;
+                    wwoken := if wlistening s then S (wwoken s) else wwoken s |}
+            else s)                                             (* no entry: the message is lost *)
+      else {| wlistening := false; wannounced := wannounced s; wregistered := wregistered s;
+              wwoken := if wlistening s then S (wwoken s) else wwoken s |}
+  end.
+Definition winit : wst := {| wlistening := false; wannounced := false; wregistered := false; wwoken := 0 |}.
+Definition wrun (via_table : bool) (ls : list wlabel) : wst := fold_left (wstep via_table) ls winit.
+(* what the property asks for: every throw made while the catch event listens wakes it, once *)
+Fixpoint wexpected (listening : bool) (ls : list wlabel) : nat :=
+  match ls with
+  | [] => 0
+  | WListen :: r => wexpected true r
+  | WRegister :: r => wexpected listening r
+  | WThrow :: r => (if listening then 1 else 0) + wexpected false r
+  end.
